@@ -216,6 +216,27 @@ def main(ctx, args):
             classed[verdict[6:]].append((c, detail))
         else:
             failures.append((c, detail if verdict == "violation" else f"class {verdict[6:]} is no longer a listed finding: " + detail, vm, wasm))
+    # heap objects and closures (`type rec` variants with multi-word payloads, closures bound / passed / returned, boxed values
+    # embedded and dropped in nested blocks): programs of the C12 generator, run on the VM with the hooks on — no reference
+    # semantics is needed, a panic (`BoxLoad: invalid heap index`, closure handle dereferenced after release, …) is the failure
+    heap_stats = collections.Counter()
+    if not args.replay:
+        import closgen
+        hcases = []
+        for prof, n in (("balanced", 60), ("boxes", 60)) if ctx.tier == "quick" else (("balanced", 600), ("boxes", 600), ("mixed", 300)):
+            for i in range(n):
+                q = closgen.make_case(ctx.seed, i, prof)
+                if q.scheduler():
+                    continue
+                hcases.append(dict(id=f"heap:{prof}:{ctx.seed}:{i}", src=q.src(), sx=None, inputs=[], times=times, nout=None, kind="heap:" + prof))
+        hres = pc.run_batch(hcases, backends="vm", want_model=False)
+        for c in hcases:
+            vm = hres[c["id"]][0]
+            cls = vm.split(" ")[0]
+            heap_stats["heap_" + cls] += 1
+            stats["evaluations"] += 1
+            if cls in ("panic", "runtime-error", "harness-died"):
+                failures.append((c, f"vm-{cls}: " + vm[:200], vm, "-"))
     kc = [dict(id=k["id"], src=k["src"], sx=None, inputs=k.get("inputs", []), times=k.get("times", 6)) for k in known if "src" in k]
     kres = pc.run_batch(kc, want_model=False, nshards=1) if kc else {}
     for k in known:
@@ -265,6 +286,7 @@ def main(ctx, args):
         "traces_validated_against_impl": stats["evaluations"],
         "failures": len(failures),
         "outcomes": {k: v for k, v in stats.items() if "_" in k and k != "evaluations"},
+        "heap_and_closure_programs(VM, hooks on)": dict(heap_stats),
         "verdict_matrix": dict(sorted(matrix.items())),
         "verdict_matrix_legend": "L+/L- Lean checker accepts/rejects, R+/R- real checker accepts/rejects (no diagnostic), ! = accepted by the real checker but not run safely (crash, one back end only, wrong width)",
         "real_accepts_outside_core_model": dict(sorted(outside.items())),
